@@ -19,6 +19,7 @@ import (
 	"os/exec"
 	"path/filepath"
 	"sort"
+	"strconv"
 	"strings"
 	"testing"
 	"time"
@@ -211,6 +212,7 @@ type c11Machine struct {
 	txs, okTxs int
 	maxTxs     int
 	queries    int
+	start      int64
 }
 
 func mustNode() *chain.Node {
@@ -238,8 +240,11 @@ func variantOpts(variant string) chain.Options {
 	return o
 }
 
-func nodeFor(variant string) *chain.Node {
-	n, err := chain.NewNode(variantOpts(variant), nil, 1)
+func nodeFor(variant string, start int64) *chain.Node {
+	if start < 1 {
+		start = 1
+	}
+	n, err := chain.NewNode(variantOpts(variant), nil, start)
 	if err != nil {
 		panic(err)
 	}
@@ -249,9 +254,9 @@ func nodeFor(variant string) *chain.Node {
 func newC11() pbt.Machine[blockOp] { return &c11Machine{maxTxs: 4} }
 
 // build constructs the replicas from the genesis variant named by the first operation.
-func (m *c11Machine) build(variant string) {
-	m.variant = variant
-	m.r0, m.r1, m.r2 = nodeFor(variant), nodeFor(variant), nodeFor(variant)
+func (m *c11Machine) build(variant string, start int64) {
+	m.variant, m.start = variant, start
+	m.r0, m.r1, m.r2 = nodeFor(variant, start), nodeFor(variant, start), nodeFor(variant, start)
 	m.h = &hist{n: m.r0, w: newWorld(), rich: 4, maxIdle: 12}
 }
 
@@ -261,7 +266,7 @@ func (m *c11Machine) Next(t *rapid.T) blockOp {
 		if v == "" {
 			v = "default"
 		}
-		return blockOp{Genesis: v}
+		return blockOp{Genesis: v, Start: drawStart(t)}
 	}
 	op := m.h.nextBlock(t, m.maxTxs)
 	if len(m.ops) > 0 && rapid.IntRange(0, 3).Draw(t, "restart") == 0 {
@@ -276,7 +281,7 @@ func (m *c11Machine) Apply(op blockOp) error {
 		if v == "default" {
 			v = ""
 		}
-		m.build(v)
+		m.build(v, op.Start)
 		if op.Genesis != "" {
 			return nil
 		}
@@ -371,7 +376,7 @@ func (m *c11Machine) Finish() error {
 	}
 	// second OS process
 	if os.Getenv("VERIF_C11_NOCHILD") == "" {
-		rep, err := runChild(m.variant, m.ops)
+		rep, err := runChild(m.variant, m.start, m.ops)
 		if err != nil {
 			return pbt.Failf("harness/child", "child process: %v", err)
 		}
@@ -394,7 +399,7 @@ func (m *c11Machine) Finish() error {
 	return nil
 }
 
-func runChild(variant string, ops []blockOp) (*childReport, error) {
+func runChild(variant string, start int64, ops []blockOp) (*childReport, error) {
 	dir, err := os.MkdirTemp(pbt.OutDir(), "c11child")
 	if err != nil {
 		return nil, err
@@ -406,7 +411,7 @@ func runChild(variant string, ops []blockOp) (*childReport, error) {
 		return nil, err
 	}
 	cmd := exec.Command(os.Args[0], "-test.run", "^TestC11Child$", "-test.timeout", "300s")
-	cmd.Env = append(os.Environ(), "VERIF_C11_CHILD="+in, "VERIF_C11_VARIANT="+variant)
+	cmd.Env = append(os.Environ(), "VERIF_C11_CHILD="+in, "VERIF_C11_VARIANT="+variant, fmt.Sprintf("VERIF_C11_START=%d", start))
 	out, err := cmd.Output()
 	if err != nil {
 		return nil, fmt.Errorf("%v: %s", err, out)
@@ -441,7 +446,8 @@ func TestC11Child(t *testing.T) {
 		t.Fatal(err)
 	}
 	rep := childReport{}
-	n := nodeFor(os.Getenv("VERIF_C11_VARIANT"))
+	start, _ := strconv.ParseInt(os.Getenv("VERIF_C11_START"), 10, 64)
+	n := nodeFor(os.Getenv("VERIF_C11_VARIANT"), start)
 	for _, op := range ops {
 		resp, err := runBlock(n, op)
 		if err != nil {
@@ -468,6 +474,9 @@ func (m *c11Machine) Classify() (bool, []string) {
 	}
 	if m.variant != "" {
 		cl = append(cl, "genesis-variant:"+m.variant)
+	}
+	if m.start > 1 {
+		cl = append(cl, "chain-started-above-height-1")
 	}
 	for k, v := range m.h.w.msgOK {
 		dbgOK[k] += v
